@@ -285,7 +285,10 @@ def check(model, rep):
             arms.append(('else', cur.orelse))
             break
     tests = [a[0] for a in arms]
-    rep.ob('R20.3', dispa, 'dispatch arms ' + ', '.join(tests), tests == ['dims==1', 'dims==2', 'dims==3', 'dims==4', 'else'] and bool(arms[-1][1]),
+    # exhaustive: 1 has its own arm, the chain ends in a non-empty catch-all, and every number of dimensions from 2 up reaches a rendering
+    # (the case analysis of R20.2 below finds array paths for ndim = 2, 3, 4 and 5 - the catch-all is parametric in ndim)
+    rep.ob('R20.3', dispa, 'dispatch arms ' + ', '.join(tests), tests[:1] == ['dims==1'] and tests[-1] == 'else' and bool(arms[-1][1])
+           and all(t_ in ('dims==1', 'dims==2', 'dims==3', 'dims==4', 'else') for t_ in tests),
            'dimension dispatch is not exhaustive over 1, 2, 3, 4, >=5: %s' % tests, line=chain.lineno)
     # arrays of 2 and more dimensions: which rows are rendered, decided by case analysis on (ndim, shape[0]) of the specialised body - however the
     # loop over the first axis is written (one loop, first / interior / last row handled apart, ...).  shape[0] = 0..4 separates every
@@ -659,7 +662,8 @@ def check(model, rep):
     for name9, fi9 in sorted(tmc9.methods.items()):
         if name9 == 'TAAtoTM' or not any(isinstance(a_, ast.Assign) and any(norm_text(t_) == 'self.TAA' for t_ in a_.targets) for a_ in walk_own(fi9.node)):
             continue
-        flat9 = _pe7.flatten({}, fi9.node, depth=1, impure=True)
+        from .common_ops import flat_method as _fm9
+        flat9 = _pe7.flatten({}, _fm9(tmc9, name9).node, depth=1, impure=True)       # private helpers of the class read in place
         try:
             ps9 = paths_of(flat9, fi9.params)
         except RuntimeError:
